@@ -607,4 +607,279 @@ theorem exprLines_all : ∀ n, ExprLines inp cfg n
   | 0 => exprLines_zero inp cfg
   | n + 1 => exprLines_step inp cfg n (exprLines_all n)
 
+/-! ### assignments, commands, pipelines, block parameter lists -/
+
+/-- a recursive call or a production whose triple is a hypothesis -/
+macro_rules | `(tactic| kcall) => `(tactic| (show Keeps _ _ _; apply_assumption -exfalso <;> try kok))
+
+theorem assignLeftLoop_lines (fuel : Nat) (ctx : String) : ∀ k left op ret, Lined.ok inp left → Lined.ok inp op →
+    KeepsOk inp (assignLeftLoop cfg fuel ctx k left op ret)
+  | 0, _, _, _, _, _ => by rw [assignLeftLoop]; exact Keeps.outOfFuel
+  | k + 1, left, op, ret, hl, ho => by
+    have E := exprLines_all inp cfg fuel
+    have ih := assignLeftLoop_lines fuel ctx k
+    rw [assignLeftLoop]
+    kauto
+
+theorem assignRightLoop_lines (fuel : Nat) : ∀ k right, Lined.ok inp right →
+    KeepsOk inp (assignRightLoop cfg fuel k right)
+  | 0, _, _ => by rw [assignRightLoop]; exact Keeps.outOfFuel
+  | k + 1, right, hr => by
+    have E := exprLines_all inp cfg fuel
+    have ih := assignRightLoop_lines fuel k
+    rw [assignRightLoop]
+    kauto
+
+theorem assignmentOrExpression_lines (fuel : Nat) (ctx : String) :
+    KeepsOk inp (assignmentOrExpression cfg fuel ctx) := by
+  have E := exprLines_all inp cfg fuel
+  have hl := assignLeftLoop_lines inp cfg fuel ctx
+  have hr := assignRightLoop_lines inp cfg fuel
+  unfold assignmentOrExpression
+  kauto
+
+theorem command_lines (fuel : Nat) (base : Option PExpr) (hb : Lined.ok inp base) :
+    KeepsOk inp (command cfg fuel base) := by
+  have E := exprLines_all inp cfg fuel
+  unfold command
+  kauto
+
+theorem pipelineLoop_lines (fuel : Nat) : ∀ k cmds, Lined.ok inp cmds → KeepsOk inp (pipelineLoop cfg fuel k cmds)
+  | 0, _, _ => by rw [pipelineLoop]; exact Keeps.outOfFuel
+  | k + 1, cmds, hc => by
+    have ih := pipelineLoop_lines fuel k
+    have hcmd := command_lines inp cfg fuel
+    rw [pipelineLoop]
+    kauto
+
+theorem pipeline_lines (fuel : Nat) (base : PExpr) (hb : Lined.ok inp base) : KeepsOk inp (pipeline cfg fuel base) := by
+  have hcmd := command_lines inp cfg fuel
+  have hloop := pipelineLoop_lines inp cfg fuel
+  unfold pipeline
+  kauto
+
+theorem blockParamsLoop_lines (fuel : Nat) (isDecl : Bool) (ctx : String) : ∀ k acc, Lined.ok inp acc →
+    KeepsOk inp (blockParamsLoop cfg fuel isDecl ctx k acc)
+  | 0, _, _ => by rw [blockParamsLoop]; exact Keeps.outOfFuel
+  | k + 1, acc, ha => by
+    have E := exprLines_all inp cfg fuel
+    have ih := blockParamsLoop_lines fuel isDecl ctx k
+    rw [blockParamsLoop]
+    kauto
+
+theorem blockParametersList_lines (fuel : Nat) (isDecl : Bool) (ctx : String) :
+    KeepsOk inp (blockParametersList cfg fuel isDecl ctx) := by
+  have hloop := blockParamsLoop_lines inp cfg fuel isDecl ctx
+  unfold blockParametersList
+  kauto
+
+/-! ### statements -/
+
+structure StmtLines (n : Nat) : Prop where
+  itemListLoop : ∀ terms acc, Lined.ok inp acc → KeepsOk inp (itemListLoop cfg n terms acc)
+  itemList : ∀ terms, KeepsOk inp (itemList cfg n terms)
+  textOrAction : KeepsOk inp (textOrAction cfg n)
+  action : KeepsOk inp (action cfg n)
+  parseInclude : KeepsOk inp (parseInclude cfg n)
+  parseBlock : KeepsOk inp (parseBlock cfg n)
+  parseYield : KeepsOk inp (parseYield cfg n)
+  parseControl : ∀ a ctx, KeepsOk inp (parseControl cfg n a ctx)
+  parseTry : KeepsOk inp (parseTry cfg n)
+  parseCatch : KeepsOk inp (parseCatch cfg n)
+
+theorem stmtLines_zero : StmtLines inp cfg 0 := by
+  constructor <;> intros <;> first
+    | (rw [itemListLoop]; exact Keeps.outOfFuel)
+    | (rw [itemList]; exact Keeps.outOfFuel)
+    | (rw [textOrAction]; exact Keeps.outOfFuel)
+    | (rw [action]; exact Keeps.outOfFuel)
+    | (rw [parseInclude]; exact Keeps.outOfFuel)
+    | (rw [parseBlock]; exact Keeps.outOfFuel)
+    | (rw [parseYield]; exact Keeps.outOfFuel)
+    | (rw [parseControl]; exact Keeps.outOfFuel)
+    | (rw [parseTry]; exact Keeps.outOfFuel)
+    | (rw [parseCatch]; exact Keeps.outOfFuel)
+
+theorem sl_itemListLoop (n : Nat) (ih : StmtLines inp cfg n) :
+    ∀ terms acc, Lined.ok inp acc → KeepsOk inp (itemListLoop cfg (n + 1) terms acc) := by
+  intro terms acc hacc
+  obtain ⟨i1, i2, i3, i4, i5, i6, i7, i8, i9, i10⟩ := ih
+  have E := exprLines_all inp cfg n
+  have a1 := assignmentOrExpression_lines inp cfg n
+  have a2 := pipeline_lines inp cfg n
+  have a3 := blockParametersList_lines inp cfg n
+  rw [itemListLoop]
+  kauto
+
+theorem sl_itemList (n : Nat) (ih : StmtLines inp cfg n) :
+    ∀ terms, KeepsOk inp (itemList cfg (n + 1) terms) := by
+  intro terms
+  obtain ⟨i1, i2, i3, i4, i5, i6, i7, i8, i9, i10⟩ := ih
+  have E := exprLines_all inp cfg n
+  have a1 := assignmentOrExpression_lines inp cfg n
+  have a2 := pipeline_lines inp cfg n
+  have a3 := blockParametersList_lines inp cfg n
+  rw [itemList]
+  kauto
+
+theorem sl_textOrAction (n : Nat) (ih : StmtLines inp cfg n) :
+    KeepsOk inp (textOrAction cfg (n + 1)) := by
+  obtain ⟨i1, i2, i3, i4, i5, i6, i7, i8, i9, i10⟩ := ih
+  have E := exprLines_all inp cfg n
+  have a1 := assignmentOrExpression_lines inp cfg n
+  have a2 := pipeline_lines inp cfg n
+  have a3 := blockParametersList_lines inp cfg n
+  rw [textOrAction]
+  kauto
+
+theorem sl_action (n : Nat) (ih : StmtLines inp cfg n) :
+    KeepsOk inp (action cfg (n + 1)) := by
+  obtain ⟨i1, i2, i3, i4, i5, i6, i7, i8, i9, i10⟩ := ih
+  have E := exprLines_all inp cfg n
+  have a1 := assignmentOrExpression_lines inp cfg n
+  have a2 := pipeline_lines inp cfg n
+  have a3 := blockParametersList_lines inp cfg n
+  rw [action]
+  kauto
+
+theorem sl_parseInclude (n : Nat) (ih : StmtLines inp cfg n) :
+    KeepsOk inp (parseInclude cfg (n + 1)) := by
+  obtain ⟨i1, i2, i3, i4, i5, i6, i7, i8, i9, i10⟩ := ih
+  have E := exprLines_all inp cfg n
+  have a1 := assignmentOrExpression_lines inp cfg n
+  have a2 := pipeline_lines inp cfg n
+  have a3 := blockParametersList_lines inp cfg n
+  rw [parseInclude]
+  kauto
+
+theorem sl_parseBlock (n : Nat) (ih : StmtLines inp cfg n) :
+    KeepsOk inp (parseBlock cfg (n + 1)) := by
+  obtain ⟨i1, i2, i3, i4, i5, i6, i7, i8, i9, i10⟩ := ih
+  have E := exprLines_all inp cfg n
+  have a1 := assignmentOrExpression_lines inp cfg n
+  have a2 := pipeline_lines inp cfg n
+  have a3 := blockParametersList_lines inp cfg n
+  rw [parseBlock]
+  kauto
+
+theorem sl_parseYield (n : Nat) (ih : StmtLines inp cfg n) :
+    KeepsOk inp (parseYield cfg (n + 1)) := by
+  obtain ⟨i1, i2, i3, i4, i5, i6, i7, i8, i9, i10⟩ := ih
+  have E := exprLines_all inp cfg n
+  have a1 := assignmentOrExpression_lines inp cfg n
+  have a2 := pipeline_lines inp cfg n
+  have a3 := blockParametersList_lines inp cfg n
+  rw [parseYield]
+  kauto
+
+theorem sl_parseControl (n : Nat) (ih : StmtLines inp cfg n) :
+    ∀ a ctx, KeepsOk inp (parseControl cfg (n + 1) a ctx) := by
+  intro allowElseIf ctx
+  obtain ⟨i1, i2, i3, i4, i5, i6, i7, i8, i9, i10⟩ := ih
+  have E := exprLines_all inp cfg n
+  have a1 := assignmentOrExpression_lines inp cfg n
+  have a2 := pipeline_lines inp cfg n
+  have a3 := blockParametersList_lines inp cfg n
+  rw [parseControl]
+  kauto
+
+theorem sl_parseTry (n : Nat) (ih : StmtLines inp cfg n) :
+    KeepsOk inp (parseTry cfg (n + 1)) := by
+  obtain ⟨i1, i2, i3, i4, i5, i6, i7, i8, i9, i10⟩ := ih
+  have E := exprLines_all inp cfg n
+  have a1 := assignmentOrExpression_lines inp cfg n
+  have a2 := pipeline_lines inp cfg n
+  have a3 := blockParametersList_lines inp cfg n
+  rw [parseTry]
+  kauto
+
+theorem sl_parseCatch (n : Nat) (ih : StmtLines inp cfg n) :
+    KeepsOk inp (parseCatch cfg (n + 1)) := by
+  obtain ⟨i1, i2, i3, i4, i5, i6, i7, i8, i9, i10⟩ := ih
+  have E := exprLines_all inp cfg n
+  have a1 := assignmentOrExpression_lines inp cfg n
+  have a2 := pipeline_lines inp cfg n
+  have a3 := blockParametersList_lines inp cfg n
+  rw [parseCatch]
+  kauto
+
+theorem stmtLines_step (n : Nat) (ih : StmtLines inp cfg n) : StmtLines inp cfg (n + 1) where
+  itemListLoop := sl_itemListLoop inp cfg n ih
+  itemList := sl_itemList inp cfg n ih
+  textOrAction := sl_textOrAction inp cfg n ih
+  action := sl_action inp cfg n ih
+  parseInclude := sl_parseInclude inp cfg n ih
+  parseBlock := sl_parseBlock inp cfg n ih
+  parseYield := sl_parseYield inp cfg n ih
+  parseControl := sl_parseControl inp cfg n ih
+  parseTry := sl_parseTry inp cfg n ih
+  parseCatch := sl_parseCatch inp cfg n ih
+
+theorem stmtLines_all : ∀ n, StmtLines inp cfg n
+  | 0 => stmtLines_zero inp cfg
+  | n + 1 => stmtLines_step inp cfg n (stmtLines_all n)
+
+/-! ### the template level -/
+
+theorem prologueLoop_lines : ∀ k skipped, Lined.ok inp skipped → KeepsOk inp (prologueLoop cfg k skipped)
+  | 0, _, _ => by rw [prologueLoop]; exact Keeps.outOfFuel
+  | k + 1, skipped, hs => by
+    have ih := prologueLoop_lines k
+    rw [prologueLoop]
+    kauto
+
+theorem bodyLoop_lines (fuel : Nat) : ∀ k acc, Lined.ok inp acc → KeepsOk inp (bodyLoop cfg fuel k acc)
+  | 0, _, _ => by rw [bodyLoop]; exact Keeps.outOfFuel
+  | k + 1, acc, ha => by
+    have ih := bodyLoop_lines fuel k
+    have h1 := (stmtLines_all inp cfg fuel).textOrAction
+    rw [bodyLoop]
+    kauto
+
+theorem parseTemplate_lines (fuel : Nat) : KeepsOk inp (parseTemplate cfg fuel) := by
+  have h1 := prologueLoop_lines inp cfg
+  have h2 := bodyLoop_lines inp cfg fuel
+  unfold parseTemplate
+  kauto
+  split <;> kok
+
+/-! ### together with the no-crash triples -/
+
+/-- two triples about the same computation combine (`m` is a function) -/
+theorem SafeL.and {α} {L : Nat → Prop} {P : PSt → Prop} {m : PM α} {Q1 Q2 : α → PSt → Prop}
+    (h1 : SafeL L P m Q1) (h2 : SafeL L P m Q2) : SafeL L P m (fun a s => Q1 a s ∧ Q2 a s) := by
+  intro s hs
+  have a1 := h1 s hs
+  have a2 := h2 s hs
+  cases hm : m s with
+  | ok a s' => rw [hm] at a1 a2; exact ⟨a1, a2⟩
+  | err l msg => rw [hm] at a1; exact a1
+  | crash w => rw [hm] at a1; exact a1.elim
+  | fuel => trivial
+  | unsupported w => trivial
+
+/-- a `Keeps` fact as a triple of the Hoare logic of Lemmas/ParseSafe.lean, given a triple that rules out the crash
+    and bounds the error line -/
+theorem SafeL.withLines {α} {L : Nat → Prop} {P : PSt → Prop} {m : PM α} {Q1 : α → PSt → Prop} {Q2 : α → Prop}
+    (h1 : SafeL L P m Q1) (h2 : Keeps inp m Q2) :
+    SafeL L (fun s => P s ∧ J inp s) m (fun a s => Q1 a s ∧ J inp s ∧ Q2 a) := by
+  intro s hs
+  have a1 := h1 s hs.1
+  cases hm : m s with
+  | ok a s' => rw [hm] at a1; exact ⟨a1, h2 s hs.2 a s' hm⟩
+  | err l msg => rw [hm] at a1; exact a1
+  | crash w => rw [hm] at a1; exact a1.elim
+  | fuel => trivial
+  | unsupported w => trivial
+
+/-- `parseTemplate`: no crash, an error names a source line, and on success the state is well-formed, every
+    registered block and every node returned has good lines -/
+theorem parseTemplate_safe_lines (fuel : Nat) :
+    SafeL (LineOk inp) (fun s => Inv inp 2 s ∧ J inp s) (parseTemplate cfg fuel)
+      (fun a s => Inv inp 2 s ∧ J inp s ∧ Lined.ok inp a) :=
+  SafeL.withLines inp (parseTemplate_safe inp cfg fuel) (parseTemplate_lines inp cfg fuel)
+
+theorem initial_J (input name : Bytes) (toks : List Item) : J input { input := input, name := name, toks := toks } :=
+  ⟨rfl, fun b hb => by simp at hb⟩
+
 end JetVerif.Parse
